@@ -22,3 +22,10 @@
 (case (sfl) (acts (dur b () (i 2) (i 10) F F () ((e -1)))) (back (ca 0 start b ()) (ca 1 other foreign ())))
 (case (sfl) (acts (dur b () (i 2) (i 10) F F () ((e -1)))) (back (ca 0 start b ())))
 (case (sfl) (acts (dur b () (i 2) (i 10) F F () ((e -1)))) (back (ca 3 end b ()) (ca 0 start b ()) (ca 3 start b ()) (ca 7 end b ())))
+; duration exactly as long as the distance of the first end-relative timing from the end: the end event would coincide with the start; forward asserts
+(case (sfl) (acts (dur b () (i 1) (i 10) F F () ((e -2)))) (fwd (ta 0 b () 2)))
+(case (sfl) (acts (dur b ((int 1 3)) (p 0) (+ (p 0) (i 4)) F F (((s 1/2) (e -1))) ((e 0))) (inst c ())) (fwd (ta 1 c () none) (ta 2 b ((i 1)) 1) (ta 0 b ((i 1)) 3)))
+; overlapping identical instances of a variable-duration action (witness of C29_inverse_variable_full_refuted): LIFO pairing, back asserts
+(case (sfl) (acts (dur load () (i 2) (i 10) F F (((s 1) (e -1))) ((e -1/2)))) (fwd (ta 0 load () 5) (ta 2 load () 5)))
+; separated instances of a variable-duration action listed in reverse: round trip holds (C29_inverse_variable_partial)
+(case (sfl) (acts (dur load () (i 2) (i 10) F F (((s 1) (e -1))) ((e -1/2))) (inst ping ())) (fwd (ta 6 load () 5) (ta 0 load () 5) (ta 1 ping () none)))
